@@ -28,7 +28,7 @@ RULE = ("parent model with 3..8 orbitals x multiplicity 1..3 (NB = 3..9 bands), 
         "parent eigenvectors) or 'random'; four window edges drawn in units of parent bands as midpoints above a band at a drawn "
         "k-point (between two multiplets or inside one) or infinite, then ordered; NW between "
         "max_k #frozen and min_k #outer; init in {amn, random}; num_iter in {0,1,5,30}; localise in {True, False}; "
-        "mix_ratio_z in {1, 0.5}; parallel=False, sitesym=False.  non-trivial = at some k the frozen set is non-empty and "
+        "mix_ratio_z in {1, 0.5}; optionally a second call with init='restart' (0, 1 or 6 more iterations, same windows); parallel=False, sitesym=False.  non-trivial = at some k the frozen set is non-empty and "
         "smaller than the selected set, and at some k the outer window excludes a band; distinct = distinct generated case")
 ASSUMPTIONS = [
     "frozen window inside the outer window; at every k  #(E in frozen window) <= NW <= #(E in outer window)  "
@@ -80,7 +80,9 @@ def case_st(draw):
                 # explicit `frozen_states` (dict per k-point / list for all k) naming bands that the frozen window freezes
                 # anyway: redundant by construction, so the expected masks do not change; and the gauge-mixing option
                 fstates=draw(st.sampled_from(["no", "no", "dict", "list"])), mixu=draw(st.sampled_from([1, 1, 0.5, 0.8])),
-                nps=draw(st.integers(0, 2 ** 32 - 1)))
+                # 0 = one call; n>0 = a second call with init='restart' and n-1 iterations (0, 1 or 6 more iterations)
+                restart=draw(st.sampled_from([0, 0, 1, 2, 7])),
+                nps=draw(st.integers(0, 2 ** 32 - 2)))
 
 
 def random_unitary(rng, n):
@@ -275,40 +277,50 @@ def check(case):
         everywhere = [int(b) for b in range(NB) if frozen[:, b].all()]
         if everywhere:
             kw["frozen_states"] = everywhere[:1]
+    def verify(ret, stage):
+        V = wd.chk.v_matrix
+        if ret is not V:
+            raise Violation("return-value", "wannierise does not return wandata.chk.v_matrix")
+        if not wd.wannierised:
+            raise Violation("return-value", "wandata.wannierised not set")
+        if sorted(V.keys()) != list(range(NK)):
+            raise Violation("kpoints", f"v_matrix defined on k-points {sorted(V.keys())}, expected 0..{NK - 1}")
+        ctx = (f"NB={NB} NW={NW} mesh={case['mp']} windows frozen=[{fmin:.6g},{fmax:.6g}] outer=[{omin:.6g},{omax:.6g}] "
+               f"init={case['init']} stage={stage} num_iter={case['num_iter']} localise={case['localise']}")
+        for ik in range(NK):
+            v = np.asarray(V[ik])
+            if v.shape != (NB, NW):
+                raise Violation("shape", f"k-point {ik}: v_matrix shape {v.shape}, expected {(NB, NW)}; {ctx}")
+            if not np.all(np.isfinite(v)):
+                raise Violation("not-finite", f"k-point {ik}; {ctx}")
+            e = float(np.abs(v.conj().T @ v - np.eye(NW)).max())
+            if e > TOL:
+                raise Violation("orthonormal-columns", f"k-point {ik}: |V^+V - 1| = {e:.2e}; {ctx}")
+            w = (np.abs(v) ** 2).sum(axis=1)
+            for b in np.where(frozen[ik])[0]:
+                if abs(w[b] - 1) > TOL:
+                    raise Violation("frozen-state-in-span", f"k-point {ik}: frozen band {b} (E={E[ik, b]:.6f}) has weight "
+                                    f"{w[b]:.8f} in the Wannier subspace; E(k)={np.round(E[ik], 5).tolist()}; {ctx}")
+            for b in np.where(~outer[ik])[0]:
+                if np.abs(v[b]).max() > TOL:
+                    raise Violation("weight-outside-outer-window", f"k-point {ik}: band {b} (E={E[ik, b]:.6f}) outside the outer "
+                                    f"window has weight {w[b]:.3e}; E(k)={np.round(E[ik], 5).tolist()}; {ctx}")
+
     with numpy_seed(case["nps"]):
         ret = wannierise(wd, **kw)
-    V = wd.chk.v_matrix
-    if ret is not V:
-        raise Violation("return-value", "wannierise does not return wandata.chk.v_matrix")
-    if not wd.wannierised:
-        raise Violation("return-value", "wandata.wannierised not set")
-    if sorted(V.keys()) != list(range(NK)):
-        raise Violation("kpoints", f"v_matrix defined on k-points {sorted(V.keys())}, expected 0..{NK - 1}")
-    ctx = (f"NB={NB} NW={NW} mesh={case['mp']} windows frozen=[{fmin:.6g},{fmax:.6g}] outer=[{omin:.6g},{omax:.6g}] "
-           f"init={case['init']} num_iter={case['num_iter']} localise={case['localise']}")
-    for ik in range(NK):
-        v = np.asarray(V[ik])
-        if v.shape != (NB, NW):
-            raise Violation("shape", f"k-point {ik}: v_matrix shape {v.shape}, expected {(NB, NW)}; {ctx}")
-        if not np.all(np.isfinite(v)):
-            raise Violation("not-finite", f"k-point {ik}; {ctx}")
-        e = float(np.abs(v.conj().T @ v - np.eye(NW)).max())
-        if e > TOL:
-            raise Violation("orthonormal-columns", f"k-point {ik}: |V^+V - 1| = {e:.2e}; {ctx}")
-        w = (np.abs(v) ** 2).sum(axis=1)
-        for b in np.where(frozen[ik])[0]:
-            if abs(w[b] - 1) > TOL:
-                raise Violation("frozen-state-in-span", f"k-point {ik}: frozen band {b} (E={E[ik, b]:.6f}) has weight "
-                                f"{w[b]:.8f} in the Wannier subspace; E(k)={np.round(E[ik], 5).tolist()}; {ctx}")
-        for b in np.where(~outer[ik])[0]:
-            if np.abs(v[b]).max() > TOL:
-                raise Violation("weight-outside-outer-window", f"k-point {ik}: band {b} (E={E[ik, b]:.6f}) outside the outer "
-                                f"window has weight {w[b]:.3e}; E(k)={np.round(E[ik], 5).tolist()}; {ctx}")
+    verify(ret, "first")
+    if case.get("restart"):
+        # continue from the stored gauge (documented init='restart'): same windows, a second number of iterations
+        kw2 = dict(kw, init="restart", num_iter=case["restart"] - 1)
+        kw2.pop("num_wann", None)
+        with numpy_seed(case["nps"] + 1):
+            ret = wannierise(wd, **kw2)
+        verify(ret, "restart")
     nsel = outer.sum(axis=1)
     nfr = frozen.sum(axis=1)
     cutting = bool(np.any((nfr > 0) & (nfr < nsel)))
     excl = bool(np.any(nsel < NB))
-    labels = [f"data={case['data']}", f"mult={case['mult']}", f"init={case['init']}", f"num_iter={case['num_iter']}",
+    labels = ["restarted" if case.get("restart") else "single-call", f"data={case['data']}", f"mult={case['mult']}", f"init={case['init']}", f"num_iter={case['num_iter']}",
               "localise" if case["localise"] else "disentangle-only", f"mix={case['mix']}",
               "frozen-none" if nfr.max() == 0 else ("frozen-cutting" if cutting else "frozen-all-selected"),
               "outer-excludes" if excl else "outer-all", "edge-cuts-multiplet" if cuts else None,
